@@ -3,9 +3,11 @@
    ring R with Leibniz equality (Z, the rationals Qc, polynomial rings, ...), every matrix
    size, every matrix A, right-hand side b and every duplicate-free list of constrained
    dofs in ANY order. *)
-From Coq Require Import List Arith Bool ZArith Ring Sorted.
+From Coq Require Import List Arith Bool ZArith Ring Sorted QArith.
+From Verif.lib Require Import Slice.
 From Verif.C10 Require Import Model Proofs.
 Import ListNotations.
+Local Open Scope nat_scope.
 
 (* complete(u) takes the prescribed value at each constrained dof: values[k] at dof
    indices[k], whatever the order of the indices (sorted or not); with or without elim_rows;
@@ -154,3 +156,49 @@ Theorem all_faces_are_valid : forall dim b, In b (all_faces dim) ->
                   parse_bdspec b dim = Some (ax, side).
 Proof. exact all_faces_valid. Qed.
 Print Assumptions all_faces_are_valid.
+
+(* slice_indices (hence boundary_dofs, boundary_cells, the index arrays of the boundary
+   conditions) lists every dof whose multi-index has coordinate idx on axis ax exactly once,
+   for every shape (any dimension), axis, index and flip pattern *)
+Theorem slice_indices_face : forall ax idx shape flip,
+  ax < length shape -> idx < nth ax shape 0 ->
+  NoDup (slice_indices ax idx shape flip) /\
+  (forall r, In r (slice_indices ax idx shape flip) <->
+             exists mi, valid_mi shape mi /\ nth ax mi 0 = idx /\ r = ravel shape mi).
+Proof. exact slice_indices_face_l. Qed.
+Print Assumptions slice_indices_face.
+
+(* the same with Python's negative indices (idx = -1 is the last slice) *)
+Theorem slice_indices_wrap_face : forall ax (idx : Z) shape flip,
+  ax < length shape -> (- Z.of_nat (nth ax shape 0%nat) <= idx < Z.of_nat (nth ax shape 0%nat))%Z ->
+  exists l, slice_indices_z ax idx shape flip = Some l /\ NoDup l /\
+    (forall r, In r l <->
+       exists mi, valid_mi shape mi /\
+                  Z.of_nat (nth ax mi 0%nat) = (idx mod Z.of_nat (nth ax shape 0%nat))%Z /\ r = ravel shape mi).
+Proof. exact slice_indices_z_face_l. Qed.
+Print Assumptions slice_indices_wrap_face.
+
+(* np.ravel_multi_index is injective on the valid multi-indices of a shape *)
+Theorem ravel_injective : forall shape mi mi', valid_mi shape mi -> valid_mi shape mi' ->
+  ravel shape mi = ravel shape mi' -> mi = mi'.
+Proof. exact ravel_inj. Qed.
+Print Assumptions ravel_injective.
+
+(* compute_initial_condition_01: the two coefficients per spatial dof solve the 2x2 collocation
+   system, i.e. value and first time derivative at the initial face are the interpolated g0, g1;
+   at the end point of an open knot vector (matrix [[1,0],[-c,c]]) the first coefficient is the
+   value itself.
+   NOT PROVED (initial_condition_01_reproduces in full): that active_deriv returns that matrix and
+   that only two basis functions contribute at the end point (B-spline facts of C02); evaluated on
+   the implementation by the harness oracle instead. *)
+Theorem initial_condition_solve_partial : forall c00 c01 c10 c11 g0 g1 : Q,
+  (~ c00 * c11 - c01 * c10 == 0)%Q ->
+  let a := solve2 c00 c01 c10 c11 g0 g1 in
+  (c00 * fst a + c01 * snd a == g0 /\ c10 * fst a + c11 * snd a == g1)%Q.
+Proof. exact solve2_correct. Qed.
+Print Assumptions initial_condition_solve_partial.
+
+Theorem initial_condition_endpoint_partial : forall c g0 g1 : Q, (~ c == 0)%Q ->
+  let a := solve2 1 0 (- c) c g0 g1 in (fst a == g0 /\ snd a == g0 + g1 / c)%Q.
+Proof. exact solve2_endpoint. Qed.
+Print Assumptions initial_condition_endpoint_partial.
